@@ -30,7 +30,12 @@ LEVEL_TEXT = ("Machine-checked proof (Coq, closed under the global context) over
 LEVEL_NOTE = ("Trusted: Coq kernel + vm_compute; hand-written models coq/Model/C29.v and C30.v validated by the "
               "correspondence runs; the remote file system is a byte list that stores exactly the writes answered "
               "SFTP_OK; get/getfo not modelled here (C27/C28 model the read path); an SFTP_EOF status on a read is "
-              "taken as the server's end of file, not as a failure.")
+              "taken as the server's end of file, not as a failure.  Every live case runs on its own freshly "
+              "opened, verified-alive session: after a download with prefetching raises, the file's prefetch thread "
+              "keeps sending CMD_READ requests, and because SFTPClient._async_request sends outside its lock and "
+              "_write_all may need several sock.send calls, those bytes can interleave with the caller's next "
+              "request and the server drops the session (\"Garbage packet received\") - not a C29 matter (the "
+              "transfer raised), reported to the coordinator.")
 TECHNIQUE = "Coq proof (invariants over the upload loop) + refutation witnesses + vm_compute differential correspondence + fault-injection runs"
 GENS = ["c30"]
 KF = "pipelined-write-status-discarded:_write-registers-NoneType"
@@ -291,14 +296,86 @@ def install(faults):
     return ow, orr
 
 
+def alive_session(ctx, old=None):
+    """A fresh session that has been seen to answer (never one that served an earlier case: a prefetch
+    thread left behind by a download that raised keeps sending on its session, see LEVEL_NOTE)."""
+    if old is not None:
+        old.close()
+    last = None
+    for _ in range(3):
+        sess = c30.Session(ctx.repo)
+        st, v = with_watchdog(lambda: sess.sftp.listdir("/"), 10.0)
+        if st == "ok" and sess.tc.is_active() and sess.ts.is_active():
+            return sess
+        last = (st, v)
+        sess.close()
+    raise RuntimeError("cannot establish a working in-process sftp session: %r" % (last,))
+
+
 def live_part(ctx, sizes, codes, wd):
+    import shutil
+    import tempfile
     from paramiko import SFTPHandle
     rng = ctx.rng
     faults = Faults()
     ow, orr = install(faults)
-    sess = c30.Session(ctx.repo)
-    local = sess.root + "-local"
-    os.makedirs(local, exist_ok=True)
+    box = {"sess": None}
+    local = tempfile.mkdtemp(prefix="verif-sftp-local-")
+    import threading
+    old_hook = threading.excepthook
+    threading.excepthook = lambda args: None      # prefetch threads of closed sessions die noisily
+
+    def upload(src, pos, code, confirm, use_put, cb):
+        """One upload on a fresh session.  Returns (status, value, destination bytes, rejected?)."""
+        sess = box["sess"] = alive_session(ctx, box["sess"])
+        faults.reset()
+        faults.fail_write = None if pos is None else (pos, code)
+        lsrc = os.path.join(local, "src.bin")
+        calls = []
+        cbf = (lambda a, b: calls.append(a)) if cb else None
+
+        def go():
+            if use_put:
+                with open(lsrc, "wb") as fh:
+                    fh.write(src)
+                return sess.sftp.put(lsrc, "/up.bin", cbf, confirm)
+            return sess.sftp.putfo(io.BytesIO(src), "/up.bin", len(src), cbf, confirm)
+
+        st, v = with_watchdog(go, wd)
+        try:
+            with open(os.path.join(sess.root, "up.bin"), "rb") as fh:
+                dst = fh.read()
+        except OSError:
+            dst = b""
+        return st, v, dst, faults.hit is not None
+
+    def download(src, pos, what, prefetch, use_get, cb, mc):
+        """One download on a fresh session.  Returns (status, value, bytes received, fault hit)."""
+        sess = box["sess"] = alive_session(ctx, box["sess"])
+        with open(os.path.join(sess.root, "down.bin"), "wb") as fh:
+            fh.write(src)
+        faults.reset()
+        faults.fail_read = None if pos is None else (pos, what)
+        ldst = os.path.join(local, "dst.bin")
+        buf = io.BytesIO()
+        calls = []
+        cbf = (lambda a, b: calls.append(a)) if cb else None
+
+        def go():
+            if use_get:
+                return sess.sftp.get("/down.bin", ldst, cbf, prefetch, mc)
+            return sess.sftp.getfo("/down.bin", buf, cbf, prefetch, mc)
+
+        st, v = with_watchdog(go, wd)
+        got = None
+        if st == "ok":
+            if use_get:
+                with open(ldst, "rb") as fh:
+                    got = fh.read()
+            else:
+                got = buf.getvalue()
+        return st, v, got, faults.hit
+
     try:
         for size in sizes:
             src = bytes(rng.getrandbits(8) for _ in range(min(size, 4096))) * (size // 4096 + 1)
@@ -311,105 +388,60 @@ def live_part(ctx, sizes, codes, wd):
                 for confirm in (True, False):
                     use_put = rng.random() < 0.5
                     cb = rng.random() < 0.5
-                    faults.reset()
-                    faults.fail_write = None if pos is None else (pos, code)
-                    rpath = "/up.bin"
-                    lsrc = os.path.join(local, "src.bin")
-                    calls = []
-                    cbf = (lambda a, b: calls.append(a)) if cb else None
-
-                    def go():
-                        if use_put:
-                            with open(lsrc, "wb") as fh:
-                                fh.write(src)
-                            return sess.sftp.put(lsrc, rpath, cbf, confirm)
-                        return sess.sftp.putfo(io.BytesIO(src), rpath, len(src), cbf, confirm)
-
-                    st, v = with_watchdog(go, wd)
                     case = {"op": "put" if use_put else "putfo", "size": size, "fail_write_index": pos,
                             "code": code if pos is not None else None, "confirm": confirm, "callback": cb}
                     ctx.count(("up", repr(case)), nontrivial=True,
                               kind="live-upload:" + ("fault" if pos is not None else "clean"))
+                    st, v, dst, rejected = upload(src, pos, code, confirm, use_put, cb)
+                    if st != "ok" and pos is None:
+                        # a timing-dependent failure is retried once before it is believed
+                        st, v, dst, rejected = upload(src, pos, code, confirm, use_put, cb)
                     if st == "hang":
                         ctx.fail("upload-hangs", "an upload did not complete under the watchdog", case=case)
-                        sess.close()
-                        sess = c30.Session(ctx.repo)
                         continue
-                    try:
-                        with open(os.path.join(sess.root, "up.bin"), "rb") as fh:
-                            dst = fh.read()
-                    except OSError:
-                        dst = b""
-                    rejected = faults.hit is not None
                     if pos is None and st == "exc":
-                        ctx.fail("upload-raises-without-fault", "a fault-free upload raised %r" % (v,), case=case)
+                        ctx.fail("upload-raises-without-fault", "a fault-free upload on a fresh session raised %r "
+                                 "(twice)" % (v,), case=case)
                     judge_put(ctx, case["op"], case, st == "ok", src, dst, rejected, confirm)
-                    try:
-                        os.unlink(os.path.join(sess.root, "up.bin"))
-                    except OSError:
-                        pass
             # ---- downloads: every read position, error codes and short reads, prefetch on/off
-            with open(os.path.join(sess.root, "down.bin"), "wb") as fh:
-                fh.write(src)
             rpos = [None] + list(range(nchunks + 1))
             for pi, pos in enumerate(rpos):
                 for prefetch in (True, False):
                     what = codes[(pi + size + 1) % len(codes)] if rng.random() < 0.7 else ("short", rng.choice([1, 100, 5000]))
                     use_get = rng.random() < 0.5
                     cb = rng.random() < 0.5
-                    faults.reset()
-                    faults.fail_read = None if pos is None else (pos, what)
-                    ldst = os.path.join(local, "dst.bin")
-                    buf = io.BytesIO()
-                    calls = []
-                    cbf = (lambda a, b: calls.append(a)) if cb else None
                     mc = rng.choice([None, None, 1, 3])
-
-                    def go():
-                        if use_get:
-                            return sess.sftp.get("/down.bin", ldst, cbf, prefetch, mc)
-                        return sess.sftp.getfo("/down.bin", buf, cbf, prefetch, mc)
-
-                    st, v = with_watchdog(go, wd)
                     case = {"op": "get" if use_get else "getfo", "size": size, "fail_read_index": pos,
                             "fault": what if pos is not None else None, "prefetch": prefetch, "callback": cb,
                             "max_concurrent": mc}
                     ctx.count(("down", repr(case)), nontrivial=True,
                               kind="live-download:" + ("fault" if pos is not None else "clean"))
+                    st, v, got, hit = download(src, pos, what, prefetch, use_get, cb, mc)
+                    if st != "ok" and pos is None:
+                        st, v, got, hit = download(src, pos, what, prefetch, use_get, cb, mc)
                     if st == "hang":
                         ctx.fail("download-hangs", "a download did not complete under the watchdog", case=case)
-                        sess.close()
-                        sess = c30.Session(ctx.repo)
-                        with open(os.path.join(sess.root, "down.bin"), "wb") as fh:
-                            fh.write(src)
                         continue
                     if pos is None and st == "exc":
-                        ctx.fail("download-raises-without-fault", "a fault-free download raised %r" % (v,), case=case)
+                        ctx.fail("download-raises-without-fault", "a fault-free download on a fresh session raised %r "
+                                 "(twice)" % (v,), case=case)
                     if st == "ok":
-                        if use_get:
-                            with open(ldst, "rb") as fh:
-                                got = fh.read()
-                        else:
-                            got = buf.getvalue()
                         expected = src
-                        if faults.hit and faults.hit[0] == "read" and what == 1 and got != src:
+                        if hit and hit[0] == "read" and what == 1 and got != src:
                             # the server said "end of file" there once: either the transfer ends there, or the
                             # client asks again (a prefetch EOF is re-checked by a plain read) and gets it all
-                            expected = src[:faults.hit[2]]
+                            expected = src[:hit[2]]
                         if got != expected:
                             ctx.fail("download-inexact:" + ("prefetch" if prefetch else "plain") +
-                                     (":" + faults.hit[0] if faults.hit else ":clean"),
+                                     (":" + hit[0] if hit else ":clean"),
                                      "%s returned normally but the local bytes differ from the remote file" % case["op"],
                                      case=case, expected={"len": len(expected)},
                                      observed={"len": len(got), "first_diff": first_diff(expected, got)})
-            try:
-                os.unlink(os.path.join(sess.root, "down.bin"))
-            except OSError:
-                pass
     finally:
+        threading.excepthook = old_hook
         SFTPHandle.write, SFTPHandle.read = ow, orr
-        sess.close()
-        import shutil
+        if box["sess"] is not None:
+            box["sess"].close()
         shutil.rmtree(local, ignore_errors=True)
 
 
@@ -441,9 +473,10 @@ def many_writes_part(ctx, wd, rounds):
     ow, orr = install(faults)
     old = SFTPFile.MAX_REQUEST_SIZE
     SFTPFile.MAX_REQUEST_SIZE = 1000
-    sess = c30.Session(ctx.repo)
+    sess = None
     try:
         for rnd in range(rounds):
+            sess = alive_session(ctx, sess)
             size = rng.choice([260000, 180000, 400000])
             src = bytes(rng.getrandbits(8) for _ in range(4096)) * (size // 4096 + 1)
             src = src[:size]
@@ -473,8 +506,6 @@ def many_writes_part(ctx, wd, rounds):
             ctx.count(("many", repr(case)), kind="live-upload:many-small-writes")
             if st == "hang":
                 ctx.fail("upload-hangs", "an upload did not complete under the watchdog", case=case)
-                sess.close()
-                sess = c30.Session(ctx.repo)
                 continue
             try:
                 with open(os.path.join(sess.root, "many.bin"), "rb") as fh:
@@ -491,7 +522,8 @@ def many_writes_part(ctx, wd, rounds):
     finally:
         SFTPFile.MAX_REQUEST_SIZE = old
         SFTPHandle.write, SFTPHandle.read = ow, orr
-        sess.close()
+        if sess is not None:
+            sess.close()
 
 
 def drop_part(ctx, sizes, wd):
@@ -524,7 +556,8 @@ def drop_part(ctx, sizes, wd):
             for pos in sorted({0, 1, nchunks // 2, nchunks - 1}):
                 for prefetch, cap in ((True, None), (True, 2), (False, None)):
                     use_get = rng.random() < 0.5
-                    sess = c30.Session(ctx.repo)
+                    state["drop_at"] = None
+                    sess = alive_session(ctx)
                     try:
                         with open(os.path.join(sess.root, "down.bin"), "wb") as fh:
                             fh.write(src)
